@@ -915,7 +915,7 @@ func runFull(c fullCase) {
 		}
 	}
 	// model: wire = transform(stack(marshal bytes)); the marshal bytes are those of the real Marshal
-	if sc, ok := stackCoq(c.Stack, len(plain)); err == nil && ok && (thorough || len(plain) <= 6000) {
+	if sc, ok := stackCoq(c.Stack, len(plain)); err == nil && ok && (len(plain) <= 6000 || (thorough && len(plain) <= 70000)) {
 		w := wireCoq(wire)
 		if c.T.Kind == "dns" {
 			w = dnsWireCoq(wire)
@@ -1221,11 +1221,16 @@ func main() {
 		big = []int{65535, 65536, 65537, 300 * 1024}
 	}
 	for _, n := range big {
-		for _, e := range singles {
+		for ei, e := range singles {
 			if !thorough && e.Kind == "cbk" && e.blockSize() < 64 {
 				continue
 			}
-			oo := !thorough && !(e.Kind == "hex" || (e.Kind == "xor" && len(e.Key) == 16) || (e.Kind == "cbk" && e.CBK[4] == 128))
+			if ei >= 13 && n != 65536 {
+				continue // the extra random elements of the thorough tier: one large payload each
+			}
+			// the Coq model repeats only some of the large payloads (a 300 KiB case costs it about 30 s)
+			sel := e.Kind == "hex" || (e.Kind == "xor" && len(e.Key) == 16) || (e.Kind == "cbk" && e.CBK[4] == 128)
+			oo := !sel && (!thorough || n > 70000)
 			runStack(stackCase{Stack: []elem{e}, Pay: randPay(r, n), WChunk: randChunk(r, e.blockSize()), RChunk: randChunk(r, e.blockSize()),
 				CChunk: chunking{Name: "random", K: 5000, Seed: r.U64()}, OracleOnly: oo})
 		}
@@ -1237,7 +1242,7 @@ func main() {
 	}
 	ns := 500
 	if thorough {
-		ns = 12000
+		ns = 6000
 	}
 	ls := lengths()
 	for i := 0; i < ns; i++ {
@@ -1254,7 +1259,7 @@ func main() {
 		if r.Intn(4) == 0 {
 			n = r.Intn(700)
 		}
-		if thorough && i%400 == 0 {
+		if thorough && i%600 == 0 {
 			n = []int{65536, 300 * 1024}[r.Intn(2)]
 		}
 		bs := maxBlock(ws)
@@ -1318,7 +1323,7 @@ func main() {
 	// ---- 6. full path
 	nf := 500
 	if thorough {
-		nf = 12000
+		nf = 6000
 	}
 	for i := 0; i < nf; i++ {
 		d := r.Intn(5)
@@ -1339,7 +1344,7 @@ func main() {
 		}
 		if i%100 == 99 {
 			n = 65536
-			if thorough && r.Bool() {
+			if thorough && i%600 == 599 {
 				n = 300 * 1024
 			}
 		}
